@@ -10,7 +10,8 @@ from ..publicops import REDUCTIONS, ROW_OPS, approx_equal, run_op
 
 PID = "C05"
 MODULES = ["GroupbyVerif.Props.C05"]
-RULE = ("seeded random datasets (1-2 keys incl. null keys, value classes f64 i64 M8[ns], <= 14 rows) x masks of every accepted kind (boolean incl. "
+RULE = ("seeded random datasets (1-2 keys incl. null keys, value classes f64 i64 M8[ns], <= 14 rows; also single keys of <= 26 rows in the chunked key "
+        "representations: chunk-wise factorization with the threshold scaled to 8 rows, pre-chunked arrow keys with 2-3 chunks) x masks of every accepted kind (boolean incl. "
         "all-false / all-true / emptying a group, slices with negative bounds, integer positions with repeats - the last two for reductions only, the "
         "row-aligned kernels accept boolean masks) x every maskable operation (11 reductions, cumulative, rolling, shift/diff, EMA plain and timed); "
         "relation: op(keys, values, mask) == op(keys[mask], values[mask]) at the selected rows / as label->value mapping, and selected outputs do not "
@@ -41,10 +42,20 @@ def gen_cases(tier, rng):
         op = rng.choice(REDUCTIONS + ROW_OPS + ROW_OPS)
         # median goes through GroupBy.apply, which accepts boolean masks only ("mask must be a boolean array")
         kinds = ("b", "s", "p") if (op in REDUCTIONS and op != "median") else ("b",)
-        ds = gen_dataset(rng, max_rows=14, max_labels=3, nkeys=rng.choice([1, 1, 2]), vdt=rng.choice(["f64", "f64", "i64", "M8ns"]),
-                         mask_kinds=kinds, min_rows=1)
+        repr_ = rng.choice(["plain", "plain", "small", "arrowchunks"])
+        if repr_ == "plain":
+            ds = gen_dataset(rng, max_rows=14, max_labels=3, nkeys=rng.choice([1, 1, 2]), vdt=rng.choice(["f64", "f64", "i64", "M8ns"]),
+                             mask_kinds=kinds, min_rows=1)
+        else:
+            ds = gen_dataset(rng, max_rows=26, max_labels=4, nkeys=1, key_classes=[rng.choice(["float", "str", "datetime", "int"])],
+                             vdt=rng.choice(["f64", "f64", "i64", "M8ns"]), mask_kinds=kinds, min_rows=9 if repr_ == "small" else 2)
         if ds["mask"] is None:
             continue
+        ds["repr"] = repr_
+        if repr_ == "arrowchunks":
+            k = len(ds["vals"])
+            cuts = sorted(rng.randint(0, k) for _ in range(rng.choice([1, 2])))
+            ds["chunks"] = [b - a for a, b in zip([0] + cuts, cuts + [k])]
         if ds["vdt"] == "M8ns" and op in ("sum", "mean", "var", "std", "median", "cumsum", "rolling_sum", "rolling_mean", "ema", "ema_timed"):
             ds["vdt"] = "f64"
             ds["vals"] = [None if v is None else v for v in ds["vals"]]
@@ -74,8 +85,8 @@ def evaluate(case, drv):
     sel = selection(case)
     op = case["op"]
     m = case["mask"]
-    key = repr((case["keys"], case["key_classes"], case["vals"], case["vdt"], m, op, case["window"]))
-    res = dict(tags=[f"op:{op}", f"mask:{m[0]}", f"vdt:{case['vdt']}", f"nkeys:{len(case['keys'])}",
+    key = repr((case["keys"], case["key_classes"], case["vals"], case["vdt"], m, op, case["window"], case.get("repr"), case.get("chunks")))
+    res = dict(tags=[f"op:{op}", f"mask:{m[0]}", f"vdt:{case['vdt']}", f"nkeys:{len(case['keys'])}", f"repr:{case.get('repr', 'plain')}",
                      "empty-selection" if not sel else "nonempty", "all-selected" if len(set(sel)) == n else "partial"],
                size=n, key=key, nontrivial=len(sel) >= 2 and len(set(sel)) < n, bucket=(op, m[0], case["vdt"]))
 
@@ -106,11 +117,25 @@ def evaluate(case, drv):
         return np.array(m[1], dtype=np.int64)
 
     kw = dict(window=case["window"], min_periods=1)
+    from groupby_lib.groupby import core as core_mod
+    old_thr = core_mod.THRESHOLD_FOR_CHUNKED_FACTORIZE
     try:
         keys, values, times = build()
-        masked = run_op(GroupBy(keys), op, values, mask=mask_obj(), times=times, **kw)
+        if case.get("repr") == "small":
+            core_mod.THRESHOLD_FOR_CHUNKED_FACTORIZE = 8
+        elif case.get("repr") == "arrowchunks":
+            import pyarrow as pa
+            typ = {"int": pa.int64(), "float": pa.float64(), "str": pa.string(), "datetime": pa.timestamp("ns")}[case["key_classes"][0]]
+            whole = pa.array(np.asarray(keys), type=typ, from_pandas=True)
+            offs = [sum(case["chunks"][:j]) for j in range(len(case["chunks"]))]
+            keys = pa.chunked_array([whole.slice(o, l) for o, l in zip(offs, case["chunks"])], type=typ)
+        gb = GroupBy(keys)
+        res["tags"].append("chunked-keys" if gb.key_is_chunked else "flat-keys")
+        masked = run_op(gb, op, values, mask=mask_obj(), times=times, **kw)
     except Exception as e:  # noqa
         masked = ("error", f"{type(e).__name__}: {str(e)[:120]}")
+    finally:
+        core_mod.THRESHOLD_FOR_CHUNKED_FACTORIZE = old_thr
     try:
         if sel:
             fk, fv, ft = build(rows=sel)
@@ -183,8 +208,17 @@ def shrink_candidates(case):
     for i in range(n):
         if n <= 1:
             break
-        yield {**case, "keys": [col[:i] + col[i + 1:] for col in case["keys"]], "vals": case["vals"][:i] + case["vals"][i + 1:],
-               "mask": ("b", m[1][:i] + m[1][i + 1:])}
+        c = {**case, "keys": [col[:i] + col[i + 1:] for col in case["keys"]], "vals": case["vals"][:i] + case["vals"][i + 1:],
+             "mask": ("b", m[1][:i] + m[1][i + 1:])}
+        if case.get("chunks"):
+            ch, acc = list(case["chunks"]), 0
+            for j, l in enumerate(ch):
+                if i < acc + l:
+                    ch[j] -= 1
+                    break
+                acc += l
+            c["chunks"] = ch
+        yield c
     if len(case["keys"]) > 1:
         yield {**case, "keys": case["keys"][:1], "key_classes": case["key_classes"][:1]}
 
